@@ -16,7 +16,7 @@ MODULE = "TriompheModel.Props.C02"
 QUICK = ["clone_read_drop_2t", "thin_offset_union_2t", "try_unwrap_vs_drop", "nodrop_payload_2t", "arcswap_cell_last_owner"]
 ASSUME = [
     "M4 Consistent: the RC11/C++20 fragment for one location whose writes are all RMWs (coherence, release sequences in index form)",
-    "M4 Protocol: safe-Rust ownership discipline (accesses through a handle lie between its birth and its release; a clone's source is alive during clone) is assumed, not derived from rustc",
+    "M4 Protocol / ViaBorn: DERIVED (WM/Ownership.lean: protocol_of_run, viaBorn_of_run) for every run of an operational, ownership-guarded semantics of handle programs (clone / access / load / drop / hand-over between threads) and every transitive hb containing program order and the hand-over edges; that this semantics is what safe Rust allows a client to do with handles is the remaining assumption (not derived from rustc)",
     "hardware / rustc code generation for atomics is outside the model",
 ]
 
@@ -33,7 +33,8 @@ def run(ctx):
     facts = common.regen_facts(ctx)
     ctx.coverage["generated_facts"] = facts_summary(facts)
     ok, out = common.lean_obligations(ctx, MODULE, ["TriompheModel.Props.Gates", "TriompheModel.WM.Consume", "TriompheModel.WM.RelSeq",
-                                                    "TriompheModel.WM.FinExec", "TriompheModel.WM.FinExamples", "TriompheModel.WM.Search"])
+                                                    "TriompheModel.WM.FinExec", "TriompheModel.WM.FinExamples", "TriompheModel.WM.Search",
+                                                    "TriompheModel.WM.Ownership", "TriompheModel.WM.OwnershipExamples"])
     # model-side search at the orderings of this tree: the template family must contain no racy execution
     nw, wtxt = common.wm_search(ctx, facts)
     ctx.oblige("model-search:no-racy-template-execution", nw == 0, wtxt[:300])
